@@ -249,8 +249,10 @@ def apply_included_paths(
                     if not force:
                         raise
         else:
-            # Included => materialize if missing
-            if not os.path.exists(full_path):
+            # Included => materialize if missing. lexists: a dangling symlink
+            # left at the path counts as present; open(..., "wb") would
+            # follow it and create its target (e.g. inside .git).
+            if not os.path.lexists(full_path):
                 try:
                     blob = repo.object_store[entry.sha]
                 except KeyError:
